@@ -4,7 +4,7 @@
    spec_case : what the implementation did is a true statement about the
                generated zone (Spec.v), whenever the records it was given
                are genuine records of that zone. *)
-From Sdns Require Export Common.Base Gen.C02 C02.Model C02.ModelNsec3 C02.ModelCut C02.Spec.
+From Sdns Require Export Common.Base Gen.C02 C02.Model C02.ModelNsec3 C02.ModelCut C02.ModelAuth C02.Spec.
 Open Scope N_scope.
 
 (* zone as generated: names leaf first, case as generated *)
@@ -14,6 +14,8 @@ Definition canon_zone (z : rzone) : zone :=
 
 (* observed aggressive verdict: code 1..7 = error class, 10 = NOERROR/NODATA, 13 = NXDOMAIN;
    proof = positions (in the slice handed to the evaluator) of the records returned *)
+(* the zone's class is IN *)
+Definition zone_class : N := 1.
 Definition aobs := (N * list N)%type.
 Definition aresult_obs (r : aresult) : aobs :=
   match r with
@@ -42,6 +44,14 @@ Record probe3 := mk_probe3 {
   o_ag : aobs        (* EvaluateAggressiveNSEC3 *)
 }.
 
+(* one negative response through Resolver.authority: question, response RCODE (3 or 0), CD bit;
+   observed: error class (0 = accepted), AD of the returned response, provenance published,
+   provenance aggressive-eligible *)
+Record aprobe := mk_aprobe {
+  a_q : name; a_qtype : N; a_qclass : N; a_rcode : N; a_cd : bool;
+  a_err : N; a_ad : bool; a_marked : bool; a_aggr : bool
+}.
+
 Inductive case :=
   (* dnsname.CanonicalCompare a b (sign), dnsname.CompareSuffix a b, dnsutil.NameInZone(a, b) *)
 | CaseCmp (a b : name) (cmp : N) (shared : N) (inzone : bool)
@@ -51,6 +61,15 @@ Inductive case :=
      chain (decided by the generator), probes *)
 | CaseNsec3 (z : rzone) (signer : name) (recs : list nsec3) (kept : list N) (prefilter : bool)
             (tab : list (name * N)) (exact_judged aggr_judged : bool) (probes : list probe3)
+  (* the same under a work governor: the hash computations of the names in [failed] were requested
+     and failed (budget exhausted / crypto gate refused), in the validation itself or in a
+     concurrent validation of the same request tree it was waiting on through the shared memo *)
+| CaseNsec3Work (z : rzone) (signer : name) (recs : list nsec3) (kept : list N) (prefilter : bool)
+                (tab : list (name * N)) (exact_judged aggr_judged : bool) (failed : list name) (probes : list probe3)
+  (* Resolver.authority on a signed negative response built from the zone's records *)
+| CaseAuthNsec (z : rzone) (signer : name) (recs : list nsec) (kept : list N) (probes : list aprobe)
+| CaseAuthNsec3 (z : rzone) (signer : name) (recs : list nsec3) (kept : list N) (tab : list (name * N))
+                (judged : bool) (probes : list aprobe)
   (* subtree-cut cache: configured maximum TTL (s), history of record / clock advance / lookup *)
 | CaseCut (maxttl : Z) (ops : list cutop)
   (* zone the records were drawn from; signer handed to the code; records; positions kept by
@@ -161,17 +180,55 @@ Fixpoint spec_cut (maxttl now : Z) (log : list (rname * N * Z)) (ops : list cuto
       ok1 found cd && ok1 fw false && spec_cut maxttl now log t
   end.
 
+Definition check_nsec3 signer recs kept (prefilter : bool) (tab : list (name * N)) (failed : list name) probes : bool :=
+  let sg := canon signer in
+  (* FilterRRsToZone looks at the owner only *)
+  list_eqb N.eqb (idx_where (fun r => prefix_b sg (canon (r_zone r))) 0 recs) kept &&
+  let filtered := keep_idx 0 kept recs in
+  let aggr_in := if prefilter then filtered else recs in
+  let cfailed := map canon failed in
+  let ctab := filter (fun p => negb (existsb (rname_eqb (fst p)) cfailed)) (map (fun p => (canon (fst p), snd p)) tab) in
+  forallb (check_probe3 sg filtered aggr_in ctab) probes.
+
+(* a requested hash that failed never leads to a denial (incomplete_never_denies) *)
+Definition no_denial3 (p : probe3) : bool :=
+  negb (fst (o_ne p) =? 0) && negb (fst (o_nd p) =? 0) && negb (o_dl p =? 0) &&
+  negb (fst (o_ag p) =? 10) && negb (fst (o_ag p) =? 13).
+
+Definition auth_eqb (m : auth_out) (p : aprobe) : bool :=
+  let '(e, ad, marked, aggr) := m in
+  (err_code e =? a_err p) && Bool.eqb ad (a_ad p) && Bool.eqb marked (a_marked p) && Bool.eqb aggr (a_aggr p).
+
+(* what an accepted / published / aggressive-eligible verdict claims must be true of the zone *)
+Definition spec_aprobe (z : zone) (p : aprobe) : bool :=
+  let qe := canon (a_q p) in
+  if negb (prefix_b (z_apex z) qe) then true else
+  let truth := if a_rcode p =? 3 then negb (exists_in_b z qe) else nodata_true_b z qe (a_qtype p) in
+  (* AD only on true denials; shared state (minimisation stop, denial-proof index, RFC 8020 cut)
+     only from true denials; nothing published for CD=1 *)
+  (negb ((a_err p =? 0) && a_ad p) || ((a_qclass p =? zone_class) && truth)) &&
+  (negb (a_marked p) || ((a_err p =? 0) && negb (a_cd p) && (a_qclass p =? zone_class) && truth)) &&
+  (negb (a_aggr p) || a_marked p).
+
 Definition check_case (c : case) : bool :=
   match c with
-  | CaseCut maxttl ops => check_cut maxttl 0 [] ops
-  | CaseNsec3 z signer recs kept prefilter tab _ _ probes =>
+  | CaseAuthNsec z signer recs kept probes =>
+      let cs := canon_recs recs in
       let sg := canon signer in
-      (* FilterRRsToZone looks at the owner only *)
+      let f := filter_to_zone sg cs in
+      list_eqb N.eqb (map (fun r => N.of_nat (c_idx r)) f) kept &&
+      forallb (fun p => auth_eqb (authority_nsec (a_rcode p) (a_cd p) (canon (a_q p)) (a_qtype p) (a_qclass p) sg (reindex f)) p) probes
+  | CaseAuthNsec3 z signer recs kept tab _ probes =>
+      let sg := canon signer in
       list_eqb N.eqb (idx_where (fun r => prefix_b sg (canon (r_zone r))) 0 recs) kept &&
       let filtered := keep_idx 0 kept recs in
-      let aggr_in := if prefilter then filtered else recs in
       let ctab := map (fun p => (canon (fst p), snd p)) tab in
-      forallb (check_probe3 sg filtered aggr_in ctab) probes
+      forallb (fun p => auth_eqb (authority_nsec3 (a_rcode p) (a_cd p) (canon (a_q p)) (a_qtype p) (a_qclass p) sg filtered ctab) p) probes
+  | CaseNsec3Work z signer recs kept prefilter tab _ _ failed probes =>
+      check_nsec3 signer recs kept prefilter tab failed probes
+  | CaseCut maxttl ops => check_cut maxttl 0 [] ops
+  | CaseNsec3 z signer recs kept prefilter tab _ _ probes =>
+      check_nsec3 signer recs kept prefilter tab [] probes
   | CaseCmp a b cmp shared inzone =>
       (cmp_sign (go_canonical_compare a b) =? cmp) &&
       (cmp_sign (ncmp (canon a) (canon b)) =? cmp) &&
@@ -188,8 +245,7 @@ Definition check_case (c : case) : bool :=
       forallb (check_nprobe sg filtered aggr_in) probes
   end.
 
-(* ---- the specification oracle.  The zone's class is IN. *)
-Definition zone_class : N := 1.
+(* ---- the specification oracle. *)
 
 Definition spec_aobs (z : zone) (qe : rname) (qtype qclass : N) (o : aobs) : bool :=
   if fst o =? 13 then (qclass =? zone_class) && negb (exists_in_b z qe)
@@ -221,6 +277,22 @@ Definition spec_probe3 (z : zone) (exact_ok aggr_ok : bool) (p : probe3) : bool 
 
 Definition spec_case (c : case) : bool :=
   match c with
+  | CaseAuthNsec rz signer recs kept probes =>
+      let z := canon_zone rz in
+      let cs := canon_recs recs in
+      let keptrecs := filter (fun r => existsb (N.eqb (N.of_nat (c_idx r))) kept) cs in
+      if negb (zone_wf_b z && rname_eqb (canon signer) (z_apex z) &&
+               forallb (fun r => genuine_b z r && (c_class r =? zone_class)) keptrecs) then true else
+      forallb (spec_aprobe z) probes
+  | CaseAuthNsec3 rz signer recs kept tab judged probes =>
+      let z := canon_zone rz in
+      if negb (zone_wf_b z && rname_eqb (canon signer) (z_apex z) && judged) then true else
+      forallb (spec_aprobe z) probes
+  | CaseNsec3Work rz signer recs kept prefilter tab exact_judged aggr_judged failed probes =>
+      let z := canon_zone rz in
+      (match failed with [] => true | _ => forallb no_denial3 probes end) &&
+      (if negb (zone_wf_b z && rname_eqb (canon signer) (z_apex z)) then true else
+       forallb (spec_probe3 z exact_judged aggr_judged) probes)
   | CaseCut maxttl ops => spec_cut maxttl 0 [] ops
   | CaseNsec3 rz signer recs kept prefilter tab exact_judged aggr_judged probes =>
       let z := canon_zone rz in
